@@ -21,6 +21,7 @@ LEVEL = 'model_checking'
 MANIFEST = {
     'technique': 'exhaustive enumeration of conditional chains; output and ordered call trace compared with a reference interpreter for every case',
     'text': 'All if/elif/else chains up to 4 (quick) / 5 (thorough) conditions over four condition kinds, every truth assignment, else/no else and every re-reference form, plus unless and call, are rendered on the real code; text and the ordered log of invoked namespace callables must equal the trace predicted by the reference interpreter (dtmc/refsem.py).',
+    'more': 'Also: condition values that are callable and render themselves with the namespace; 50..700 conditionals in one rendering whose conditions are documents without defaults; sections that begin with white space other than blanks-and-newline.',
     'note': 'Trusted: the reference interpreter (written from the statement, imports nothing from DocumentTemplate); logging callables are the only observed side-effect channel.',
 }
 RULE = ('all if/elif/else chains of 1..N conditions (N=4 quick, 5 thorough) '
